@@ -52,10 +52,31 @@ func genSizes(g *vh.Gen) {
 	}
 }
 
+// genVisitStop: histories that end with a VisitMailboxes whose visitor returns false at its k-th
+// non-empty mailbox (the walk must end there on both stores), half of them with a visitor that removes
+// the oldest message of every mailbox it is handed (what the retention scanner does).
+func genVisitStop(g *vh.Gen) {
+	for i := 0; i < g.N(60, 2000); i++ {
+		names := sd.Names(g)
+		if len(names) < 3 {
+			names = append(names, "vs-one", "vs-two", "vs-three")
+		}
+		p := sd.Profile{MinOps: 6, MaxOps: 30, Sizes: []int{120, 200, 333}, PAdd: 0.6}
+		ops := sd.Ops(g, len(names), p)
+		mut := "0"
+		if g.Chance(0.5) {
+			mut = "1"
+		}
+		ops += ",w" + vh.I(1+g.Intn(len(names))) + ":" + mut
+		sd.EmitHistory(g, []string{"mem", "file"}, "direct", 0, 0, names, ops)
+	}
+}
+
 func genAll(g *vh.Gen) {
 	gen(g)
 	sd.GenCollide(g)
 	genSizes(g)
+	genVisitStop(g)
 	// arrival order is not id order: a mailbox whose deliveries straddle the wrap of the id counter
 	// within one second (planted, see sd/wrap.go); listing, "latest", get/seen/remove by handle
 	for i := 0; i < g.N(12, 200); i++ {
